@@ -16,6 +16,7 @@ fn base(prop: &'static str) -> Cfg {
         max_limit: 5,
         obs_init: 2,
         direct: false,
+        via_adapter: false,
         twin: false,
         prop,
     }
@@ -194,6 +195,37 @@ fn plans(prop: &str, tier: &str) -> Vec<Plan> {
                 }
             }
             out.push(Plan { name: "c12-direct", cfgs: direct, depth: if q { 2 } else { 3 } });
+            // dynamic-with-initial-value adapters used as observers themselves:
+            // into_parts is called while the limit is non-zero
+            let mut via = Vec::new();
+            for lower_l in [Lim::DynInit(1, LimSrc::Obs), Lim::DynInit(2, LimSrc::Queue)] {
+                for lower in hts(lower_l) {
+                    for upper in [
+                        StageKind::Filter,
+                        StageKind::FilterMap,
+                        StageKind::Head(Lim::Static(1)),
+                        StageKind::Tail(Lim::Static(1)),
+                        StageKind::Skip(Lim::Static(1)),
+                        StageKind::Head(Lim::Dyn(LimSrc::Queue)),
+                        StageKind::Tail(Lim::DynInit(1, LimSrc::Obs)),
+                    ] {
+                        for batched in fl {
+                            for init in chain_inits() {
+                                for direct in [false, true] {
+                                    if direct && matches!(lower, StageKind::Tail(_)) {
+                                        continue; // F5 cannot be attributed without a tap above the Tail
+                                    }
+                                    let mut c = mk(vec![lower, upper], batched, &init, Alphabet::Full, 16);
+                                    c.via_adapter = true;
+                                    c.direct = direct;
+                                    via.push(c);
+                                }
+                            }
+                        }
+                    }
+                }
+            }
+            out.push(Plan { name: "c12-dyninit-via-adapter", cfgs: via, depth: if q { 2 } else { 3 } });
             // length 3
             let mut len3 = Vec::new();
             let small: Vec<StageKind> = vec![
